@@ -6,10 +6,13 @@ H5 dtype preservation / id kinds   H6 refusal guards precede opening / construct
 H7 k-mer parameters   H8 create(): id shape check, attributes before datasets, returns cls(group); dump is one `with h5.File(path, 'w')`
 """
 import ast
+import copy
 
 from ..affine import Aff, sym
 from ..astutil import (u, atoms, guard_map, path_atoms, stmts_in, calls_in, callee, callee_attr, reaching_def, def_value,
-                       PARAM, AMBIGUOUS, get_arg, get_kw, is_none, is_const, raised_name, block_path, has_starstar)
+                       PARAM, AMBIGUOUS, get_arg, get_kw, is_none, is_const, raised_name, block_path, has_starstar, assigned_targets, walk_no_nested)
+from ..model import FuncInfo
+from ..mini import Mini, Opaque, Return as MiniReturn
 from ..report import Undecided
 
 H = 'gambit.sigs.hdf5'
@@ -20,6 +23,558 @@ def attr_key(ctx, fi, node):
         return ctx.model.const_value(fi.module, node)
     except Undecided:
         return f'<{u(node)}>'
+
+
+# ---------------------------------------------------------------------- meaning-preserving pre-pass on the anchor functions
+#
+# The rules below talk about VALUES (which attribute name receives which field, which expression is stored under which
+# condition).  Before they run, every anchor function is brought into an explicit form by transformations that do not change
+# what is computed:
+#   P1  a local that is only another name for a pure access path of an object that is never rebound (`attrs = group.attrs`,
+#       `n = len(signatures)`) is replaced by that path;
+#   P2  `for x in <constant tuple of strings>` / a list or dict comprehension over one is unrolled, `x` becoming the literal;
+#   P3  `getattr(o, '<literal>')` is `o.<literal>`;
+#   P4  `f(**d)` with `d` a dict display with literal string keys (directly, or a local bound once and used only there) is
+#       `f(key=value, ...)`.
+
+class _Subst(ast.NodeTransformer):
+    def __init__(self, mapping):
+        self.mapping = mapping
+
+    def visit_Name(self, node):
+        if isinstance(node.ctx, ast.Load) and node.id in self.mapping:
+            return ast.copy_location(copy.deepcopy(self.mapping[node.id]), node)
+        return node
+
+
+def _subst(node, mapping):
+    out = _Subst(mapping).visit(copy.deepcopy(node))
+    return ast.fix_missing_locations(out)
+
+
+def _bound_names(fnode):
+    out = {}
+    for s in stmts_in(fnode.body):
+        for t in assigned_targets(s):
+            for n in ast.walk(t):
+                if isinstance(n, ast.Name):
+                    out.setdefault(n.id, []).append(s)
+        if isinstance(s, ast.Try):
+            for h in s.handlers:
+                if h.name:
+                    out.setdefault(h.name, []).append(s)
+    for n in ast.walk(fnode):
+        if isinstance(n, (ast.NamedExpr,)) and isinstance(n.target, ast.Name):
+            out.setdefault(n.target.id, []).append(n)
+        elif isinstance(n, ast.comprehension):
+            for x in ast.walk(n.target):
+                if isinstance(x, ast.Name):
+                    out.setdefault(x.id, []).append(n)
+        elif isinstance(n, (ast.FunctionDef, ast.ClassDef)) and n is not fnode:
+            out.setdefault(n.name, []).append(n)
+    return out
+
+
+def _pure_path_root(e):
+    """Root Name of a pure access path (attribute chain, len(path)); None otherwise."""
+    while True:
+        if isinstance(e, ast.Attribute):
+            e = e.value
+        elif isinstance(e, ast.Call) and isinstance(e.func, ast.Name) and e.func.id == 'len' and len(e.args) == 1 and not e.keywords:
+            e = e.args[0]
+        elif isinstance(e, ast.Name):
+            return e.id
+        else:
+            return None
+
+
+_MUTATING = {'append', 'extend', 'insert', 'pop', 'remove', 'clear', 'sort', 'reverse', 'update', 'setdefault', 'popitem', 'add', 'discard', 'resize'}
+
+
+def _touched(fnode, path, root):
+    """May the value of the access path change inside the function?  (a component is stored to, or the root object is mutated)"""
+    comps = {u(n) for n in ast.walk(path) if isinstance(n, ast.Attribute)}
+    for s in stmts_in(fnode.body):
+        tg = assigned_targets(s) + (list(s.targets) if isinstance(s, ast.Delete) else [])
+        for t in tg:
+            if isinstance(t, ast.Attribute) and u(t) in comps:
+                return True
+            if isinstance(t, ast.Subscript) and (u(t.value) == root or u(t.value) in comps):
+                return True
+    for c in ast.walk(fnode):
+        if isinstance(c, ast.Call) and isinstance(c.func, ast.Attribute) and c.func.attr in _MUTATING and (u(c.func.value) == root or u(c.func.value) in comps):
+            return True
+    return False
+
+
+def _const_strs(ctx, module, node):
+    if not isinstance(node, (ast.Name, ast.Attribute, ast.Tuple, ast.List)):
+        return None
+    try:
+        v = ctx.model.const_value(module, node)
+    except Undecided:
+        return None
+    if isinstance(v, (tuple, list)) and all(isinstance(x, str) for x in v):
+        return list(v)
+    return None
+
+
+def _loads(fnode, name):
+    return [n for n in ast.walk(fnode) if isinstance(n, ast.Name) and n.id == name and isinstance(n.ctx, ast.Load)]
+
+
+class _Unroll(ast.NodeTransformer):
+    def __init__(self, ctx, module, fnode):
+        self.ctx, self.module, self.fnode = ctx, module, fnode
+
+    def _block(self, stmts):
+        out = []
+        for s in stmts:
+            r = self.visit(s)
+            out.extend(r if isinstance(r, list) else [r])
+        return out
+
+    def visit_For(self, node):
+        node.body = self._block(node.body)
+        node.orelse = self._block(node.orelse)
+        node.iter = self.visit(node.iter)
+        seq = _const_strs(self.ctx, self.module, node.iter)
+        if seq is None or node.orelse or not isinstance(node.target, ast.Name) or not seq:
+            return node
+        tname = node.target.id
+        inner = [x for b in node.body for x in ast.walk(b)]
+        if any(isinstance(x, (ast.Break, ast.Continue, ast.Return, ast.Yield, ast.YieldFrom)) for x in inner):
+            return node
+        if any(isinstance(x, ast.Name) and x.id == tname and isinstance(x.ctx, (ast.Store, ast.Del)) for x in inner):
+            return node
+        inside = {id(x) for x in inner}
+        if any(id(x) not in inside for x in _loads(self.fnode, tname)):
+            return node         # the loop variable is read after the loop
+        out = []
+        for v in seq:
+            for b in node.body:
+                out.append(_subst(b, {tname: ast.Constant(v)}))
+        return out
+
+    def _comp(self, node, make):
+        self.generic_visit(node)
+        if len(node.generators) != 1:
+            return node
+        g = node.generators[0]
+        seq = _const_strs(self.ctx, self.module, g.iter)
+        if seq is None or g.ifs or g.is_async or not isinstance(g.target, ast.Name):
+            return node
+        return ast.copy_location(make([{g.target.id: ast.Constant(v)} for v in seq]), node)
+
+    def visit_DictComp(self, node):
+        return self._comp(node, lambda ms: ast.Dict(keys=[_subst(node.key, mp) for mp in ms], values=[_subst(node.value, mp) for mp in ms]))
+
+    def visit_ListComp(self, node):
+        return self._comp(node, lambda ms: ast.List(elts=[_subst(node.elt, mp) for mp in ms], ctx=ast.Load()))
+
+    def visit_FunctionDef(self, node):
+        if node is self.fnode:
+            node.body = self._block(node.body)
+        return node
+
+    def visit_If(self, node):
+        node.test = self.visit(node.test)
+        node.body = self._block(node.body)
+        node.orelse = self._block(node.orelse)
+        return node
+
+    def visit_With(self, node):
+        for i in node.items:
+            i.context_expr = self.visit(i.context_expr)
+        node.body = self._block(node.body)
+        return node
+
+    def visit_While(self, node):
+        node.test = self.visit(node.test)
+        node.body = self._block(node.body)
+        node.orelse = self._block(node.orelse)
+        return node
+
+    def visit_Try(self, node):
+        node.body = self._block(node.body)
+        for h in node.handlers:
+            h.body = self._block(h.body)
+        node.orelse = self._block(node.orelse)
+        node.finalbody = self._block(node.finalbody)
+        return node
+
+
+class _FoldGetattr(ast.NodeTransformer):
+    def visit_Call(self, node):
+        self.generic_visit(node)
+        if isinstance(node.func, ast.Name) and node.func.id == 'getattr' and len(node.args) == 2 and not node.keywords \
+                and isinstance(node.args[1], ast.Constant) and isinstance(node.args[1].value, str) and node.args[1].value.isidentifier():
+            return ast.copy_location(ast.Attribute(value=node.args[0], attr=node.args[1].value, ctx=ast.Load()), node)
+        return node
+
+
+def _remove_stmt(fnode, stmt):
+    bp = block_path(fnode, stmt)
+    block, idx, _ = bp[-1]
+    del block[idx]
+    if not block:
+        block.append(ast.copy_location(ast.Pass(), stmt))
+
+
+def _literal_str_dict(e):
+    return isinstance(e, ast.Dict) and e.keys and all(isinstance(k, ast.Constant) and isinstance(k.value, str) for k in e.keys)
+
+
+def prep(ctx, fi):
+    """FuncInfo over an explicit-form copy of the function (P1-P4 above); the model itself is left untouched."""
+    fnode = copy.deepcopy(fi.node)
+    # P1 alias locals
+    changed = True
+    while changed:
+        changed = False
+        bound = _bound_names(fnode)
+        a = fnode.args
+        for name, sites in bound.items():
+            if len(sites) != 1 or not isinstance(sites[0], ast.Assign):
+                continue
+            st = sites[0]
+            if len(st.targets) != 1 or not isinstance(st.targets[0], ast.Name) or isinstance(st.value, ast.Name):
+                continue
+            if name in [x.arg for x in a.posonlyargs + a.args + a.kwonlyargs] or any(isinstance(x, (ast.Global, ast.Nonlocal)) for x in ast.walk(fnode)):
+                continue
+            root = _pure_path_root(st.value)
+            if root is None or root in bound or _touched(fnode, st.value, root):
+                continue
+            if any(isinstance(d, (ast.FunctionDef, ast.Lambda, ast.ClassDef)) and d is not fnode for d in ast.walk(fnode)):
+                continue
+            _remove_stmt(fnode, st)
+            fnode = _Subst({name: st.value}).visit(fnode)
+            ast.fix_missing_locations(fnode)
+            changed = True
+            break
+    # P2 / P3
+    fnode = _Unroll(ctx, fi.module, fnode).visit(fnode)
+    fnode = _FoldGetattr().visit(fnode)
+    ast.fix_missing_locations(fnode)
+    # P4
+    for call in [n for n in ast.walk(fnode) if isinstance(n, ast.Call)]:
+        for kw in list(call.keywords):
+            if kw.arg is not None:
+                continue
+            d, def_stmt = kw.value, None
+            if isinstance(d, ast.Name):
+                sites = _bound_names(fnode).get(d.id, [])
+                host = next((s for s in stmts_in(fnode.body) if not isinstance(s, (ast.If, ast.For, ast.While, ast.With, ast.Try)) and any(x is call for x in ast.walk(s))), None)
+                if len(sites) == 1 and host is not None and reaching_def(fnode, d.id, host) is sites[0] and def_value(sites[0]) is not None and len(_loads(fnode, d.id)) == 1:
+                    def_stmt, d = sites[0], def_value(sites[0])
+            if not _literal_str_dict(d):
+                continue
+            explicit = {k.arg for k in call.keywords if k.arg is not None}
+            keys = [k.value for k in d.keys]
+            if explicit & set(keys) or len(set(keys)) != len(keys):
+                continue
+            i = call.keywords.index(kw)
+            call.keywords[i:i + 1] = [ast.keyword(arg=k.value, value=v) for k, v in zip(d.keys, d.values)]
+            if def_stmt is not None:
+                _remove_stmt(fnode, def_stmt)
+    ast.fix_missing_locations(fnode)
+    return FuncInfo(fi.qualname, fnode, fi.module, fi.cls)
+
+
+# ---------------------------------------------------------------------- values behind locals, case analysis
+
+def binding_def(fnode, name, stmt):
+    """Reaching definition of the NAME (stores into the object it denotes - `name[...] = v`, `name.a = v` - are stepped over)."""
+    d = reaching_def(fnode, name, stmt)
+    while isinstance(d, (ast.Assign, ast.AugAssign)) and not any(isinstance(x, ast.Name) and x.id == name and isinstance(x.ctx, ast.Store) for t in assigned_targets(d) for x in ast.walk(t)):
+        d = reaching_def(fnode, name, d)
+    return d
+
+
+def _def_in_with(fnode, name, stmt):
+    """The single binding of `name` in the function when it sits (unconditionally) in the body of `with` statements that precede
+    `stmt`: a with body runs exactly once before what follows it."""
+    sites = _bound_names(fnode).get(name, [])
+    if len(sites) != 1 or not isinstance(sites[0], ast.Assign):
+        return AMBIGUOUS
+    bp, sp = block_path(fnode, sites[0]), block_path(fnode, stmt)
+    if bp is None or sp is None:
+        return AMBIGUOUS
+    # strip the common prefix of blocks; what remains above the definition must be With statements only, starting before stmt
+    k = 0
+    while k < len(bp) and k < len(sp) and bp[k][0] is sp[k][0] and bp[k][1] == sp[k][1]:
+        k += 1
+    if k >= len(bp) or k >= len(sp) or bp[k][0] is not sp[k][0] or not bp[k][1] < sp[k][1]:
+        return AMBIGUOUS
+    if not all(isinstance(owner, (ast.With, ast.AsyncWith)) for (_, _, owner) in bp[k + 1:]) or len(bp) == k + 1:
+        return AMBIGUOUS
+    return sites[0]
+
+
+def deep(fnode, e, stmt, _depth=0):
+    """`e` (evaluated at `stmt`) with every local that has ONE structured reaching definition replaced by the defining
+    expression, recursively: the value that flows, whatever it was called on the way."""
+    if _depth > 12:
+        return e
+
+    class T(ast.NodeTransformer):
+        def visit_Name(self, node):
+            if not isinstance(node.ctx, ast.Load):
+                return node
+            d = reaching_def(fnode, node.id, stmt)
+            if d == AMBIGUOUS:
+                d = _def_in_with(fnode, node.id, stmt)
+            if d in (None, PARAM, AMBIGUOUS) or isinstance(d, (ast.For, ast.With, ast.AsyncFor, ast.AsyncWith)):
+                return node
+            v = def_value(d)
+            if v is None or isinstance(d, ast.AugAssign):
+                return node
+            r = deep(fnode, v, d, _depth + 1)
+            # the defining expression denotes the same value here only if nothing it mentions was rebound in between
+            for nm in {x.id for x in ast.walk(r) if isinstance(x, ast.Name)}:
+                r1, r2 = reaching_def(fnode, nm, d), reaching_def(fnode, nm, stmt)
+                if r1 is not r2 or r1 == AMBIGUOUS:
+                    return node
+            return ast.copy_location(r, node)
+
+        def visit_Lambda(self, node):
+            return node
+    return ast.fix_missing_locations(T().visit(copy.deepcopy(e)))
+
+
+def test_owner(fnode):
+    """id(test expression) -> the statement it belongs to (for resolving the locals a guard mentions)."""
+    out = {}
+    for s in stmts_in(fnode.body):
+        if isinstance(s, (ast.If, ast.While, ast.Assert)):
+            out[id(s.test)] = s
+    return out
+
+
+def deep_atoms(fnode, gm, stmt, owners=None, key=u):
+    """Path condition of `stmt` as atoms over fully resolved operands (a guard on a boolean local is the comparison it
+    was computed from)."""
+    owners = owners if owners is not None else test_owner(fnode)
+    out = set()
+    for t, pol in gm[stmt]:
+        o = owners.get(id(t))
+        a = atoms(deep(fnode, t, o) if o is not None else t, pol, key)
+        if a:
+            out |= a
+    return out
+
+
+def _contradictory(at):
+    neg = {'is': 'isnot', 'isnot': 'is', 'eq': 'ne', 'ne': 'eq', 'in': 'notin', 'notin': 'in', 'true': 'false', 'false': 'true'}
+    return any((neg.get(a[0]),) + tuple(a[1:]) in at for a in at)
+
+
+def cases(e):
+    """[(atoms, expression without conditional expressions)]: `e` split on every conditional expression it contains.
+    Raises Undecided when a test is not a conjunction of atoms."""
+    def first_ifexp(n):
+        for x in walk_no_nested(n):
+            if isinstance(x, ast.IfExp):
+                return x
+        return None
+    work, out = [(frozenset(), e)], []
+    while work:
+        at, x = work.pop()
+        ie = first_ifexp(x)
+        if ie is None:
+            out.append((at, x))
+            continue
+        for pol, arm in ((True, ie.body), (False, ie.orelse)):
+            a = atoms(ie.test, pol)
+            if a is None:
+                raise Undecided(f'conditional expression with a non-conjunctive test: {u(ie)}')
+            na = at | a
+            if _contradictory(na):
+                continue
+
+            class R(ast.NodeTransformer):
+                def visit_IfExp(self, node):
+                    if u(node) == u(ie):
+                        return copy.deepcopy(arm)
+                    return self.generic_visit(node)
+            work.append((frozenset(na), ast.fix_missing_locations(R().visit(copy.deepcopy(x)))))
+    return sorted(out, key=lambda c: (sorted(c[0]), u(c[1])))
+
+
+def is_str_empty(m, fi, e):
+    """h5.Empty(<the variable-length string dtype>)"""
+    return isinstance(e, ast.Call) and u(e.func) in ('h5.Empty', 'h5py.Empty') and len(e.args) == 1 and not e.keywords \
+        and (m.resolve(fi.module, e.args[0]) == f'{H}.STR_DTYPE' or u(e.args[0]) in ('h5.string_dtype()', 'h5py.string_dtype()'))
+
+
+def simplify_none_to_empty(m, fi, e):
+    """none_to_empty(None, dt) is h5.Empty(dt); none_to_empty(<text produced by json.dumps / a string literal>, dt) is that text.
+    (the definition of none_to_empty itself is an obligation of H3)"""
+    if isinstance(e, ast.Call) and m.resolve_call(fi, e) == f'{H}.none_to_empty' and len(e.args) == 2 and not e.keywords:
+        v = e.args[0]
+        if is_none(v):
+            return ast.fix_missing_locations(ast.copy_location(ast.Call(func=ast.Attribute(value=ast.Name(id='h5', ctx=ast.Load()), attr='Empty', ctx=ast.Load()), args=[e.args[1]], keywords=[]), e))
+        if (isinstance(v, ast.Call) and u(v.func) == 'json.dumps') or (isinstance(v, ast.Constant) and isinstance(v.value, str)) or isinstance(v, ast.JoinedStr):
+            return v
+    return e
+
+
+# ---------------------------------------------------------------------- loops as index maps
+
+IDX = 'I__'
+
+
+def iter_model(it, lens):
+    """(count as Aff, elem) for the iterable of a for loop: elem(index expression) is the AST of the element produced in
+    that iteration.  Vocabulary: range(N), enumerate(X), zip(X, ...), X[a:] / X[:-b] / X[a:-b], a plain sequence expression.
+    Anything else -> Undecided."""
+    def seq_len(x):
+        return Aff.try_of(ast.Call(func=ast.Name(id='len', ctx=ast.Load()), args=[x], keywords=[]), lens)
+
+    def plus(i, k):
+        return i if k == 0 else ast.BinOp(left=i, op=ast.Add(), right=ast.Constant(k))
+    if isinstance(it, ast.Call) and u(it.func) == 'range' and not it.keywords:
+        if len(it.args) == 1:
+            return Aff.try_of(it.args[0], lens), (lambda i: i)
+        raise Undecided(f'loop over {u(it)}: only range(N) is evaluated')
+    if isinstance(it, ast.Call) and u(it.func) == 'enumerate' and len(it.args) == 1 and not it.keywords:
+        c, e = iter_model(it.args[0], lens)
+        return c, (lambda i: ast.Tuple(elts=[i, e(i)], ctx=ast.Load()))
+    if isinstance(it, ast.Call) and u(it.func) == 'zip' and it.args and not it.keywords and not any(isinstance(a, ast.Starred) for a in it.args):
+        parts = [iter_model(a, lens) for a in it.args]
+        counts = {repr(c) for c, _ in parts}
+        if len(counts) != 1 or parts[0][0] is None:
+            raise Undecided(f'loop over {u(it)}: the zipped sequences do not have one known common length ({sorted(counts)})')
+        return parts[0][0], (lambda i: ast.Tuple(elts=[e(i) for _, e in parts], ctx=ast.Load()))
+    if isinstance(it, ast.Subscript) and isinstance(it.slice, ast.Slice):
+        sl = it.slice
+
+        def cint(x, default):
+            if x is None:
+                return default
+            a = Aff.try_of(x)
+            return int(a.const) if a is not None and a.is_const() and a.const.denominator == 1 else None
+        lo, hi = cint(sl.lower, 0), cint(sl.upper, 0)
+        n = seq_len(it.value)
+        if sl.step is not None or lo is None or hi is None or lo < 0 or hi > 0 or n is None:
+            raise Undecided(f'loop over {u(it)}: only slices X[a:], X[:-b], X[a:-b] with literal a, b >= 0 are evaluated')
+        base = it.value
+        return n.plus(-lo + hi), (lambda i: ast.Subscript(value=base, slice=plus(i, lo), ctx=ast.Load()))
+    if isinstance(it, (ast.Name, ast.Attribute)):
+        n = seq_len(it)
+        return n, (lambda i: ast.Subscript(value=it, slice=i, ctx=ast.Load()))
+    raise Undecided(f'loop over {u(it)}: iterable outside the evaluated vocabulary (range / enumerate / zip / slice / sequence)')
+
+
+def bind_target(target, value):
+    """{loop variable: element expression} for a (possibly nested tuple) loop target."""
+    if isinstance(target, ast.Name):
+        return {target.id: value}
+    if isinstance(target, (ast.Tuple, ast.List)) and isinstance(value, ast.Tuple) and len(target.elts) == len(value.elts):
+        out = {}
+        for t, v in zip(target.elts, value.elts):
+            out.update(bind_target(t, v))
+        return out
+    raise Undecided(f'loop target {u(target)} cannot be matched with the elements {u(value)}')
+
+
+# ---------------------------------------------------------------------- finite-domain execution of the id dispatch
+
+NUMPY_KINDS = 'biufcmMOSUV'
+
+
+class _Sym:
+    """Named uninterpreted value."""
+
+    def __init__(self, name):
+        self.name = name
+
+    def __repr__(self):
+        return self.name
+
+
+class _Stop(Exception):
+    def __init__(self, data, dtype):
+        self.data, self.dtype = data, dtype
+
+
+class _Raised(Exception):
+    def __init__(self, name):
+        self.name = name
+
+
+class _DispatchEval(Mini):
+    def truth(self, v):
+        if isinstance(v, _Sym):
+            raise Undecided(f'truth value of {v.name} is not known')
+        return super().truth(v)
+
+    def compare(self, op, l, r, node):
+        t = type(op).__name__
+        if t in ('Is', 'IsNot'):
+            if isinstance(l, Opaque) or isinstance(r, Opaque):
+                raise Undecided(f'identity test on an unknown value in {u(node)}')
+            same = (l is r) or (l is None and r is None)
+            if isinstance(l, _Sym) and isinstance(r, _Sym) and l is not r:
+                raise Undecided(f'identity of two symbolic values in {u(node)}')
+            return same if t == 'Is' else not same
+        if isinstance(l, _Sym) or isinstance(r, _Sym):
+            raise Undecided(f'comparison of a symbolic value in {u(node)}')
+        return super().compare(op, l, r, node)
+
+    def assign(self, target, value, stmt):
+        if isinstance(target, ast.Name):
+            for k in [k for k in self.env if isinstance(k, str) and k.startswith(target.id + '.')]:
+                del self.env[k]      # facts about the old object do not describe the new one
+        super().assign(target, value, stmt)
+
+    def stmt(self, s):
+        if isinstance(s, ast.Raise):
+            raise _Raised(raised_name(s))
+        super().stmt(s)
+
+
+def run_id_dispatch(m, f_ds, idsp, kind, ids_call):
+    """Execute _init_datasets for an id array of dtype kind `kind` up to the creation of the ids dataset.
+    -> ('write', data text, dtype text) | ('raise', exception name, None) | ('not written', None, None)"""
+    def show(v):
+        return v.name if isinstance(v, _Sym) else repr(v)
+
+    def on_call(mi, call):
+        if call is ids_call:
+            d, t = get_kw(call, 'data'), get_kw(call, 'dtype')
+            raise _Stop(show(mi.ev(d)) if d is not None else None, show(mi.ev(t)) if t is not None else None)
+        f = call.func
+        if isinstance(f, ast.Attribute) and isinstance(f.value, ast.Name) and f.value.id in mi.env and isinstance(mi.env[f.value.id], _Sym):
+            head = f'{mi.env[f.value.id].name}.{f.attr}'
+        else:
+            head = u(f)
+        return _Sym(f'{head}({", ".join([u(a) for a in call.args] + [f"{k.arg}={u(k.value)}" for k in call.keywords])})')
+    env = {}
+    a = f_ds.node.args
+    for p in f_ds.params():
+        env[p] = _Sym(p)
+    for p in f_ds.params():
+        d = f_ds.param_default(p)
+        if d is not None and is_none(d):
+            env[p] = None       # the internal caller may omit it; the is-None default branch is then the one taken
+    local = {t.id for s in stmts_in(f_ds.node.body) for tt in assigned_targets(s) for t in ast.walk(tt) if isinstance(t, ast.Name)}
+    for n in ast.walk(f_ds.node):
+        if isinstance(n, ast.Name) and isinstance(n.ctx, ast.Load) and n.id not in env and n.id not in local:
+            r = m.resolve(f_ds.module, n)
+            env[n.id] = _Sym(r if r and r.startswith('gambit.') else n.id)
+    env[f'{idsp}.dtype'] = _Sym(f'{idsp}.dtype')
+    env[f'{idsp}.dtype.kind'] = ord(kind)
+    mi = _DispatchEval(env, on_call=on_call)
+    try:
+        mi.run(f_ds.node.body)
+    except _Stop as st:
+        return ('write', st.data, st.dtype)
+    except _Raised as r:
+        return ('raise', r.name, None)
+    except MiniReturn:
+        pass
+    return ('not written', None, None)
 
 
 def attr_stores(ctx, fi, recv):
@@ -54,6 +609,10 @@ def check(ctx):
     rep.rule('H6', 'refusal: magic comparison raises the SignaturesFileError before h5.File; marker test before construction; constructor raises SignaturesFileError first; raising read forms')
     rep.rule('H7', 'k-mer parameters written as (k, prefix_str) and read back as KmerSpec(k, prefix)')
     rep.rule('H8', 'create(): id shape check; returns cls(group); dump_signatures_hdf5 is one `with h5.File(path, "w")`')
+    rep.rule('H9', 'the loaded collection (HDF5Signatures) resolves the whole indexing protocol to the ConcatenatedSignatureArray / AdvancedIndexingMixin implementations (nothing overridden on the way)')
+    rep.rule('X3', 'C20-X3 re-evaluated on the class the reader returns: index normalisation')
+    rep.rule('X4', 'C20-X4 re-evaluated on the class the reader returns: element / length / contiguous-slice arithmetic over values and bounds')
+    rep.rule('X5', 'C20-X5 re-evaluated on the class the reader returns: slices and index lists keep kmerspec, dtype, order and repeats; no shortcut return')
     rep.trusted += ['h5py stores dtypes, variable-length strings and compressed chunks losslessly', 'h5py.Empty round-trips as h5py.Empty']
     hmod = m.module(H)
     cls = m.cls(f'{H}.HDF5Signatures')
@@ -67,6 +626,8 @@ def check(ctx):
     f_dp = m.func(f'{H}.dump_signatures_hdf5')
     for f in (f_init, f_ia, f_ds, f_cr, f_wm, f_rm, f_ld, f_dp):
         rep.functions.add(f.qualname)
+    # explicit-form copies (aliases of access paths resolved, loops over constant name tuples unrolled, **{literal dict} spelled out)
+    f_init, f_ia, f_ds, f_cr, f_wm, f_rm, f_ld, f_dp = (prep(ctx, f) for f in (f_init, f_ia, f_ds, f_cr, f_wm, f_rm, f_ld, f_dp))
 
     # ------------------------------------------------------------------ H1
     g_ia = f_ia.params()[1]
@@ -79,11 +640,12 @@ def check(ctx):
     r_meta = attr_loads(ctx, f_rm, g_rm)
     written = {k for k, _, _ in w_core} | {k for k, _, _ in w_meta}
     read = {k for k, _, _ in r_core} | {k for k, _, _ in r_meta}
-    rep.floor('H1', 'attribute names written', len(written), 9)
     for k in sorted(written | read, key=str):
         site = next((f_ia.site(s) for kk, _, s in w_core if kk == k), None) or next((f_wm.site(s) for kk, _, s in w_meta if kk == k), None) or f_init.site()
         rep.add('H1', site, f'attribute {k!r} is both written and read back', k in written and k in read, expected='written and read', found=('written' if k in written else 'NOT written') + ', ' + ('read' if k in read else 'NOT read'),
                 stmt=f'attr {k}')
+    # floor after the comparison: a name that is read but no longer written is a concrete deviation and is reported as such first
+    rep.floor('H1', 'attribute names written', len(written), 9)
     calls_wm = [c for c in calls_in(f_ia.node) if m.resolve_call(f_ia, c) == f'{H}.write_metadata']
     rep.add('H1', f_ia.site(calls_wm[0] if calls_wm else None), '_init_attrs writes the metadata of the collection into the same group', len(calls_wm) == 1 and [u(a) for a in calls_wm[0].args] == [g_ia, f_ia.params()[3]],
             expected=f'write_metadata({g_ia}, meta)', found=[u(c) for c in calls_wm], stmt='write_metadata call')
@@ -107,37 +669,46 @@ def check(ctx):
     metap = f_wm.params()[1]
 
     def load_of(expr):
-        """(key, via_empty_to_none, form) for a keyword value of the SignaturesMeta constructor."""
-        e = expr
-        if isinstance(e, ast.Name):
-            d = reaching_def(f_rm.node, e.id, next(s for s in f_rm.node.body if any(x is ctor[0] for x in ast.walk(s))))
-            e = def_value(d) if d not in (None, PARAM, AMBIGUOUS) else None
-        return e
+        """The value passed for a keyword of the SignaturesMeta constructor, locals resolved."""
+        if expr is None:
+            return None
+        host = next(s for s in stmts_in(f_rm.node.body) if any(x is ctor[0] for x in ast.walk(s)) and not isinstance(s, (ast.If, ast.For, ast.While, ast.With, ast.Try)))
+        return deep(f_rm.node, expr, host)
     for fld in fields:
         wv = mw.get(fld)
         rv = kws.get(fld)
         if fld == 'extra':
-            # write: json.dumps(meta.extra) under `meta.extra is not None`, Empty otherwise
+            # write: the value stored under 'extra', by cases: json.dumps(meta.extra) when the field is not None, a string-typed Empty when it is.
+            # (if/else with two stores, a conditional expression, a local in between, none_to_empty applied to the JSON text are the same table)
             stores = [(v, s) for k, v, s in w_meta if k == 'extra']
             gm = guard_map(f_wm.node)
-            dumps = [(v, s) for v, s in stores if isinstance(v, ast.Call) and u(v.func) == 'json.dumps' and [u(a) for a in v.args] == [f'{metap}.extra']
-                     and ('isnot', 'None', f'{metap}.extra') in path_atoms(gm[s])]
-            empt = [(v, s) for v, s in stores if isinstance(v, ast.Call) and u(v.func) in ('h5.Empty', 'h5py.Empty') and ('is', 'None', f'{metap}.extra') in path_atoms(gm[s])]
-            rep.add('H3', f_wm.site(stores[0][1] if stores else None), 'extra is stored as JSON text, or Empty when None', len(dumps) == 1 and len(empt) == 1 and len(stores) == 2, expected='json.dumps(meta.extra) / h5.Empty',
-                    found=[u(s) for _, s in stores], stmt='extra write')
-            e = load_of(rv)
-            # extra = None if extra_str is None else json.loads(extra_str), extra_str = empty_to_none(group.attrs.get('extra'))
-            ok = isinstance(e, ast.IfExp) and is_none(e.body) and isinstance(e.orelse, ast.Call) and u(e.orelse.func) == 'json.loads' and atoms(e.test) is not None \
-                and any(a[0] == 'is' and 'None' in a for a in atoms(e.test))
+            own = test_owner(f_wm.node)
+            table = []
+            for v, s in stores:
+                for at, val in cases(deep(f_wm.node, v, s)):
+                    at = set(at) | deep_atoms(f_wm.node, gm, s, own)
+                    if not _contradictory(at):
+                        table.append((at, simplify_none_to_empty(m, f_wm, val)))
+            isn, notn = ('is', 'None', f'{metap}.extra'), ('isnot', 'None', f'{metap}.extra')
+            dumps = [(at, v) for at, v in table if notn in at]
+            empt = [(at, v) for at, v in table if isn in at]
+            okx = len(table) == 2 and len(dumps) == 1 and len(empt) == 1 and u(dumps[0][1]) == f'json.dumps({metap}.extra)' and is_str_empty(m, f_wm, empt[0][1])
+            rep.add('H3', f_wm.site(stores[0][1] if stores else None), 'extra is stored as JSON text, or Empty when None', okx, expected='json.dumps(meta.extra) when meta.extra is not None / h5.Empty(STR_DTYPE) when it is None',
+                    found=[(sorted(at), u(v)) for at, v in table] or [u(s) for _, s in stores], stmt='extra write')
+            # read: None when the stored value is Empty, json.loads of the stored text otherwise
+            cst_rm = next(s for s in stmts_in(f_rm.node.body) if any(x is ctor[0] for x in ast.walk(s)) and not isinstance(s, (ast.If, ast.For, ast.While, ast.With, ast.Try)))
+            rtable = cases(deep(f_rm.node, rv, cst_rm)) if rv is not None else []
             src = None
-            if ok:
-                sname = e.orelse.args[0]
-                d = reaching_def(f_rm.node, sname.id, f_rm.node.body[-1]) if isinstance(sname, ast.Name) else None
-                src = def_value(d) if d not in (None, PARAM, AMBIGUOUS) else None
-                ok = isinstance(src, ast.Call) and m.resolve_call(f_rm, src) == f'{H}.empty_to_none' and isinstance(src.args[0], ast.Call) and u(src.args[0].func) == f'{g_rm}.attrs.get' \
-                    and attr_key(ctx, f_rm, src.args[0].args[0]) == 'extra'
+            ok = False
+            loads_ = [(at, v) for at, v in rtable if isinstance(v, ast.Call) and u(v.func) == 'json.loads' and len(v.args) == 1 and not v.keywords]
+            nones = [(at, v) for at, v in rtable if is_none(v)]
+            if len(rtable) == 2 and len(loads_) == 1 and len(nones) == 1:
+                src = loads_[0][1].args[0]
+                ok = isinstance(src, ast.Call) and m.resolve_call(f_rm, src) == f'{H}.empty_to_none' and len(src.args) == 1 and isinstance(src.args[0], ast.Call) and u(src.args[0].func) == f'{g_rm}.attrs.get' \
+                    and len(src.args[0].args) == 1 and not src.args[0].keywords and attr_key(ctx, f_rm, src.args[0].args[0]) == 'extra' \
+                    and set(nones[0][0]) == {('is', 'None', u(src))} and set(loads_[0][0]) == {('isnot', 'None', u(src))}
             rep.add('H3', f_rm.site(ctor[0]), 'extra is restored by json.loads of the stored text, None when Empty', ok, expected="None if s is None else json.loads(s), s = empty_to_none(attrs.get('extra'))",
-                    found=(u(e), u(src)), stmt='extra read')
+                    found=[(sorted(at), u(v)) for at, v in rtable], stmt='extra read')
             continue
         okw = wv is not None and isinstance(wv[0], ast.Call) and m.resolve_call(f_wm, wv[0]) == f'{H}.none_to_empty' and u(wv[0].args[0]) == f'{metap}.{fld}' \
             and m.resolve(f_wm.module, wv[0].args[1]) == f'{H}.STR_DTYPE'
@@ -187,75 +758,125 @@ def check(ctx):
             expected=f'create_dataset("values", data={sigs}.values, **values_kw)', found=u(va), stmt='array values')
     rep.add('H5', f_ds.site(ba), 'array path: bounds written from signatures.bounds as BOUNDS_DTYPE', ba is not None and u(get_kw(ba, 'data')) == f'{sigs}.bounds' and u(get_kw(ba, 'dtype')) == 'BOUNDS_DTYPE',
             expected=f'create_dataset("bounds", data={sigs}.bounds, dtype=BOUNDS_DTYPE)', found=u(ba), stmt='array bounds')
-    # list path
+    # list path.  The 'bounds' content B is either (a) the dataset handle `B = create_dataset('bounds', shape=S, dtype=...)` filled by stores
+    # afterwards, or (b) an in-memory array `B = np.zeros/np.empty(S, dtype=...)` filled by stores and THEN written with
+    # `create_dataset('bounds', data=B, dtype=...)`.  Either way the obligations are about B: S = n + 1, B[0] = 0, B[1:] = cumsum(sizes).
     vl = next(((c, st) for c, at, st in by_name['values'] if notarr in at), (None, None))
     bl = next(((c, st) for c, at, st in by_name['bounds'] if notarr in at), (None, None))
-    rep.require(vl[0] is not None and bl[0] is not None and isinstance(vl[1], ast.Assign) and isinstance(bl[1], ast.Assign), '_init_datasets: list path datasets not assigned to locals')
-    vname, bname = u(vl[1].targets[0]), u(bl[1].targets[0])
+    rep.require(vl[0] is not None and bl[0] is not None, '_init_datasets: list path dataset creation (values / bounds outside the SignatureArray case) not found')
+    rep.require(isinstance(vl[1], ast.Assign) and isinstance(vl[1].targets[0], ast.Name), '_init_datasets: list path values dataset is not bound to a local (the per-signature fill cannot be located)')
+    vname = u(vl[1].targets[0])
     locs = {u(s.targets[0]): s.value for s in stmts_in(f_ds.node.body) if isinstance(s, ast.Assign) and isinstance(s.targets[0], ast.Name)}
-    nname = next((k for k, v in locs.items() if u(v) == f'len({sigs})'), None)
-    env = {nname: sym('n')} if nname else {}
-    env[f'len({sigs})'] = sym('n')
-    shp = Aff.try_of(get_kw(bl[0], 'shape'), env) if get_kw(bl[0], 'shape') is not None else None
-    rep.add('H4', f_ds.site(bl[0]), 'list path: bounds has len(signatures) + 1 entries of BOUNDS_DTYPE', shp == sym('n').plus(1) and u(get_kw(bl[0], 'dtype')) == 'BOUNDS_DTYPE', expected='shape=n + 1, dtype=BOUNDS_DTYPE',
-            found=u(bl[0]), stmt='list bounds shape')
+    env = {f'len({sigs})': sym('n')}
+    for k, v in locs.items():
+        if u(v) == f'len({sigs})':
+            env[k] = sym('n')
+    bdata = get_kw(bl[0], 'data')
+    in_memory = bdata is not None
+    zero_init = False
+    bdef = None
+    if not in_memory:
+        rep.require(isinstance(bl[1], ast.Assign) and isinstance(bl[1].targets[0], ast.Name), '_init_datasets: list path bounds dataset is created empty but not bound to a local (its stores cannot be located)')
+        bname = u(bl[1].targets[0])
+        bshape_e, bdtypes = get_kw(bl[0], 'shape'), [u(get_kw(bl[0], 'dtype'))]
+    else:
+        rep.require(isinstance(bdata, ast.Name), f'_init_datasets: list path bounds written from {u(bdata)}: not a local array whose construction can be followed')
+        bname = bdata.id
+        bdef = binding_def(f_ds.node, bname, bl[1])
+        bval = def_value(bdef) if bdef not in (None, PARAM, AMBIGUOUS) else None
+        rep.require(isinstance(bval, ast.Call) and u(bval.func) in ('np.zeros', 'numpy.zeros', 'np.empty', 'numpy.empty'), f'_init_datasets: list path bounds array {bname} is not built by np.zeros / np.empty(shape, dtype=...): {u(bval)}')
+        zero_init = u(bval.func).endswith('zeros')
+        bshape_e, bdtypes = get_arg(bval, 0, 'shape'), [u(get_arg(bval, 1, 'dtype')), u(get_kw(bl[0], 'dtype'))]
+    shp = Aff.try_of(bshape_e, env) if bshape_e is not None and bshape_e is not Ellipsis else None
+    rep.add('H4', f_ds.site(bl[0]), 'list path: bounds has len(signatures) + 1 entries of BOUNDS_DTYPE', shp == sym('n').plus(1) and all(d == 'BOUNDS_DTYPE' for d in bdtypes), expected='shape=n + 1, dtype=BOUNDS_DTYPE' + (' (array and dataset)' if in_memory else ''),
+            found=(u(def_value(bdef)) + '; ' if in_memory else '') + u(bl[0]), stmt='list bounds shape')
     stores = [s for s in stmts_in(f_ds.node.body) if isinstance(s, ast.Assign) and isinstance(s.targets[0], ast.Subscript) and u(s.targets[0].value) == bname]
     b0 = [s for s in stores if u(s.targets[0].slice) == '0']
     b1 = [s for s in stores if isinstance(s.targets[0].slice, ast.Slice) and u(s.targets[0].slice.lower) == '1' and s.targets[0].slice.upper is None and s.targets[0].slice.step is None]
-    okb0 = len(b0) == 1 and is_const(b0[0].value, 0)
+    okb0 = (len(b0) == 1 and is_const(b0[0].value, 0) and len(stores) == 2) or (zero_init and not b0 and len(stores) == 1)
+    # in-memory array: every store must happen before the array is copied into the file, in the same straight-line block
+    okorder = True
+    if in_memory:
+        blk = block_path(f_ds.node, bl[1])[-1]
+        okorder = all(s in blk[0] and blk[0].index(bdef) < blk[0].index(s) < blk[1] for s in stores) if bdef in blk[0] else False
     okb1 = False
     szname = None
     if len(b1) == 1 and isinstance(b1[0].value, ast.Call) and u(b1[0].value.func) in ('np.cumsum', 'numpy.cumsum'):
         szname = u(b1[0].value.args[0])
         szdef = locs.get(szname)
-        okb1 = szdef is not None and u(szdef) in (f'np.asarray({sigs}.sizes())', f'{sigs}.sizes()', f'np.array({sigs}.sizes())')
-    rep.add('H4', f_ds.site(b0[0] if b0 else bl[0]), 'list path: bounds[0] = 0', okb0 and len(stores) == 2, expected=f'{bname}[0] = 0', found=[u(s) for s in stores], stmt='list bounds[0]')
-    rep.add('H4', f_ds.site(b1[0] if b1 else bl[0]), 'list path: bounds[1:] = cumulative sizes of the signatures in order', okb1, expected=f'{bname}[1:] = np.cumsum({sigs}.sizes())', found=[u(s) for s in stores], stmt='list bounds[1:]')
+        okb1 = (szdef is not None and u(szdef) in (f'np.asarray({sigs}.sizes())', f'{sigs}.sizes()', f'np.array({sigs}.sizes())')) or szname in (f'np.asarray({sigs}.sizes())', f'{sigs}.sizes()', f'np.array({sigs}.sizes())')
+    rep.add('H4', f_ds.site(b0[0] if b0 else bl[0]), 'list path: bounds[0] = 0', okb0, expected=f'{bname}[0] = 0' + (' (or zero-initialised array)' if in_memory else ''), found=[u(s) for s in stores], stmt='list bounds[0]')
+    rep.add('H4', f_ds.site(b1[0] if b1 else bl[0]), 'list path: bounds[1:] = cumulative sizes of the signatures in order' + (', stored before the array is written' if in_memory else ''), okb1 and okorder,
+            expected=f'{bname}[1:] = np.cumsum({sigs}.sizes())', found=[u(s) for s in stores], stmt='list bounds[1:]')
     vshape = get_kw(vl[0], 'shape')
     okvs = vshape is not None and u(vshape) in (f'int({bname}[-1])', f'{bname}[-1]') and u(get_kw(vl[0], 'dtype')) == f'{sigs}.dtype'
     rep.add('H5', f_ds.site(vl[0]), 'list path: values sized by the last bound and typed like the collection', okvs, expected=f'shape=int({bname}[-1]), dtype={sigs}.dtype', found=u(vl[0]), stmt='list values')
+    # fill: the loop is read as "for I in range(count): <targets> = <element expressions in I>"; range / enumerate / zip / slices of the
+    # bounds are all reduced to expressions in the running index, then the store must be values[B[I] : B[I+1]] = signatures[I], count = n
     fills = [s for s in stmts_in(f_ds.node.body) if isinstance(s, ast.Assign) and isinstance(s.targets[0], ast.Subscript) and u(s.targets[0].value) == vname]
     okf = False
+    found_fill = [u(s) for s in fills]
     if len(fills) == 1:
         fs = fills[0]
         bp = block_path(f_ds.node, fs)
-        loop = next((o for (_, _, o) in reversed(bp) if isinstance(o, ast.For)), None)
+        loop = next((o for (_, _, o) in reversed(bp) if isinstance(o, (ast.For, ast.While))), None)
         sl = fs.targets[0].slice
-        if loop is not None and isinstance(loop.target, ast.Name) and isinstance(sl, ast.Slice) and sl.step is None:
-            i = loop.target.id
-            rng = Aff.try_of(loop.iter.args[0], env) if isinstance(loop.iter, ast.Call) and u(loop.iter.func) == 'range' and len(loop.iter.args) == 1 else None
-            okf = rng == sym('n') and u(sl.lower) == f'{bname}[{i}]' and isinstance(sl.upper, ast.Subscript) and u(sl.upper.value) == bname and Aff.try_of(sl.upper.slice) == sym(i).plus(1) \
-                and u(fs.value) == f'{sigs}[{i}]'
+        if isinstance(loop, ast.For) and isinstance(sl, ast.Slice) and sl.step is None and not loop.orelse:
+            lens = dict(env)
+            if shp is not None:
+                lens[f'len({bname})'] = shp
+            count, elem = iter_model(loop.iter, lens)
+            binding = bind_target(loop.target, elem(ast.Name(id=IDX, ctx=ast.Load())))
+            rebound = [s for s in stmts_in(loop.body) for t in assigned_targets(s) for x in ast.walk(t) if isinstance(x, ast.Name) and isinstance(x.ctx, ast.Store) and x.id in binding]
+            rep.require(not rebound, '_init_datasets: a loop variable of the fill loop is reassigned in the body')
+            lo, hi, val = (_subst(x, binding) if x is not None else None for x in (sl.lower, sl.upper, fs.value))
+            found_fill = [f'for {IDX} in range({count}): {vname}[{u(lo)}:{u(hi)}] = {u(val)}']
+
+            def at_index(e, base, off):
+                return isinstance(e, ast.Subscript) and u(e.value) == base and not isinstance(e.slice, ast.Slice) and Aff.try_of(e.slice, env) == sym(IDX).plus(off)
+            okf = count == sym('n') and at_index(lo, bname, 0) and at_index(hi, bname, 1) and at_index(val, sigs, 0) and bp[-1][2] is loop
     rep.add('H4', f_ds.site(fills[0] if fills else vl[0]), 'list path: signature i is written to values[bounds[i] : bounds[i+1]] for every i (the slice the reader uses)', okf,
-            expected=f'for i in range(n): {vname}[{bname}[i]:{bname}[i + 1]] = {sigs}[i]', found=[u(s) for s in fills], stmt='list fill')
+            expected=f'for i in range(n): {vname}[{bname}[i]:{bname}[i + 1]] = {sigs}[i]', found=found_fill, stmt='list fill')
     for c, nm in ((va, 'array'), (vl[0], 'list')):
         rep.add('H5', f_ds.site(c), f'{nm} path: compression options are forwarded to the values dataset only', c is not None and has_starstar(c), expected='**values_kw', found=u(c), stmt=f'{nm} compression')
-    # ids
+    # ids: the (data, dtype) handed to create_dataset('ids', ...) is computed by EXECUTING the function body for every numpy dtype kind
+    # (finite domain), whatever the shape of the dispatch (if/elif order, grouped kinds, a local holding the kind, nested conversion)
     ic, iat, ist = by_name['ids'][0]
-    kinds = {}
-    idt = u(get_kw(ic, 'dtype'))
-    for s in stmts_in(f_ds.node.body):
-        if isinstance(s, ast.Assign) and u(s.targets[0]) == idt:
-            at = path_atoms(gmd[s])
-            for a in at:
-                if a[0] in ('eq', 'in') and f'{idsp}.dtype.kind' in a:
-                    lit = a[1] if a[2] == f'{idsp}.dtype.kind' else a[2]
-                    kinds[lit.strip("'")] = u(s.value)
-    okk = kinds.get('U') in ('h5.string_dtype()', 'STR_DTYPE') and kinds.get('OS', kinds.get('SO')) in ('h5.string_dtype()', 'STR_DTYPE') and kinds.get('ui', kinds.get('iu')) == f'{idsp}.dtype'
-    rep.add('H5', f_ds.site(ist), 'id kinds: unicode/object/bytes ids stored as variable-length strings, integer ids in their own dtype', okk, expected="U,O,S -> string dtype; u,i -> ids.dtype", found=kinds, stmt='id kinds')
-    conv = [s for s in stmts_in(f_ds.node.body) if isinstance(s, ast.Assign) and u(s.targets[0]) == idsp]
-    okc = len(conv) == 1 and u(conv[0].value) == f'{idsp}.astype(object)' and ('eq', "'U'", f'{idsp}.dtype.kind') in path_atoms(gmd[conv[0]])
-    rep.add('H5', f_ds.site(conv[0] if conv else ist), 'unicode ids are converted to objects only in the unicode branch', okc, expected=f"{idsp} = {idsp}.astype(object) under kind == 'U'", found=[u(c) for c in conv], stmt='unicode ids')
+    ktable = {}
+    for ch in NUMPY_KINDS:
+        try:
+            ktable[ch] = run_id_dispatch(m, f_ds, idsp, ch, ic)
+        except Undecided as e:
+            raise Undecided(f'_init_datasets: id dispatch not evaluable for dtype kind {ch!r}: {e}')
+    STRD = ('h5.string_dtype()', 'h5py.string_dtype()', f'{H}.STR_DTYPE')
+    shown = {k: v for k, v in ktable.items()}
+    okk = all(ktable[k][0] == 'write' and ktable[k][2] in STRD for k in 'UOS') and all(ktable[k][0] == 'write' and ktable[k][2] == f'{idsp}.dtype' for k in 'ui')
+    rep.add('H5', f_ds.site(ist), 'id kinds: unicode/object/bytes ids stored as variable-length strings, integer ids in their own dtype', okk, expected="U,O,S -> string dtype; u,i -> ids.dtype", found={k: shown[k] for k in 'UOSui'}, stmt='id kinds')
+    okc = ktable['U'][:2] == ('write', f'{idsp}.astype(object)') and all(ktable[k][:2] == ('write', idsp) for k in 'OSui')
+    rep.add('H5', f_ds.site(ist), 'unicode ids are converted to objects only in the unicode branch', okc, expected=f"data = {idsp}.astype(object) for kind 'U', {idsp} unchanged for O, S, u, i", found={k: shown[k][:2] for k in 'UOSui'}, stmt='unicode ids')
+    others = [k for k in NUMPY_KINDS if k not in 'UOSui']
     rs = [s for s in stmts_in(f_ds.node.body) if isinstance(s, ast.Raise)]
-    rep.add('H5', f_ds.site(rs[0] if rs else ist), 'any other id type is rejected', len(rs) == 1 and raised_name(rs[0]) == 'ValueError' and rs[0].lineno < ic.lineno, expected='raise ValueError before writing', found=[u(r)[:50] for r in rs], stmt='id reject')
-    rep.add('H5', f_ds.site(ic), 'ids are written from the (converted) id array with the chosen dtype', u(get_kw(ic, 'data')) == idsp and isinstance(get_kw(ic, 'dtype'), ast.Name), expected=f'create_dataset("ids", data={idsp}, dtype=<chosen dtype>)',
-            found=u(ic), stmt='ids write')
+    rep.add('H5', f_ds.site(rs[0] if rs else ist), 'any other id type is rejected', all(ktable[k] == ('raise', 'ValueError', None) for k in others), expected='raise ValueError before writing', found={k: shown[k] for k in others}, stmt='id reject')
+    rep.add('H5', f_ds.site(ic), 'ids are written from the (converted) id array with the chosen dtype', get_kw(ic, 'data') is not None and get_kw(ic, 'dtype') is not None and len(ic.args) == 1 and {k.arg for k in ic.keywords} == {'data', 'dtype'},
+            expected=f'create_dataset("ids", data={idsp}, dtype=<chosen dtype>)', found=u(ic), stmt='ids write')
     gmi = guard_map(f_init.node)
-    idset = [s for s in stmts_in(f_init.node.body) if isinstance(s, ast.Assign) and u(s.targets[0]) == 'self.ids']
-    dec = [s for s in idset if u(s.value).endswith('.asstr()[:]')]
-    raw = [s for s in idset if not u(s.value).endswith('.asstr()[:]') and u(s.value).endswith('[:]')]
-    okd = len(dec) == 1 and len(raw) == 1 and any(a[0] == 'eq' and "'O'" in a for a in path_atoms(gmi[dec[0]])) and any(a[0] == 'ne' and "'O'" in a for a in path_atoms(gmi[raw[0]]))
-    rep.add('H5', f_init.site(dec[0] if dec else None), 'string ids are decoded with asstr() on read, integer ids read as stored', okd, expected="ids_data.asstr()[:] if kind == 'O' else ids_data[:]", found=[u(s) for s in idset], stmt='ids read')
+    owni = test_owner(f_init.node)
+    # what is stored in self.ids, by cases (if/else with two stores, a conditional expression, a local view in between are the same table):
+    # <ids dataset>.asstr()[:] exactly when the dataset's dtype kind is 'O', <ids dataset>[:] otherwise
+    idset = [s for s in stmts_in(f_init.node.body) if isinstance(s, ast.Assign) and any(u(t) == 'self.ids' for t in s.targets)]
+    itable = []
+    for s in idset:
+        for at, val in cases(deep(f_init.node, s.value, s)):
+            at = set(at) | deep_atoms(f_init.node, gmi, s, owni)
+            if not _contradictory(at):
+                itable.append((at, val))
+    dsx = f"{g_in}['ids']"
+    is_o, not_o = ('eq', "'O'", f'{dsx}.dtype.kind'), ('ne', "'O'", f'{dsx}.dtype.kind')
+    dec = [(at, v) for at, v in itable if is_o in at]
+    raw = [(at, v) for at, v in itable if not_o in at]
+    okd = len(itable) == 2 and len(dec) == 1 and len(raw) == 1 and u(dec[0][1]) == f'{dsx}.asstr()[:]' and u(raw[0][1]) == f'{dsx}[:]'
+    rep.add('H5', f_init.site(idset[0] if idset else None), 'string ids are decoded with asstr() on read, integer ids read as stored', okd, expected=f"{dsx}.asstr()[:] if {dsx}.dtype.kind == 'O' else {dsx}[:]",
+            found=[(sorted(at), u(v)) for at, v in itable] or [u(s) for s in idset], stmt='ids read')
 
     # ------------------------------------------------------------------ H6
     gml = guard_map(f_ld.node)
@@ -266,19 +887,40 @@ def check(ctx):
     ost = next(s for s in f_ld.node.body if any(x is op for x in ast.walk(s)))
     exc_defs = [s for s in f_ld.node.body if isinstance(s, ast.Assign) and isinstance(s.value, ast.Call) and (m.resolve_call(f_ld, s.value) or '').endswith('SignaturesFileError')]
     excname = u(exc_defs[0].targets[0]) if exc_defs else None
-    hdr = [s for s in stmts_in(f_ld.node.body) if isinstance(s, ast.Assign) and isinstance(s.value, ast.Call) and callee_attr(s.value) == 'read']
-    okh = len(hdr) == 1 and [u(a) for a in hdr[0].value.args] == ['8']
-    hname = u(hdr[0].targets[0]) if hdr else None
-    at = path_atoms(gml[ost])
-    magic = "b'\\x89HDF\\r\\n\\x1a\\n'"
-    okm = any(a[0] == 'eq' and hname in a and magic in a for a in at)
-    rep.add('H6', f_ld.site(ost), 'the file is opened with h5py only after its first 8 bytes equal the HDF5 magic number', okh and okm, expected=f'{hname} == {magic} on the path to h5.File', found=sorted(at), stmt='magic guard')
+    # the header is the VALUE of `<handle>.read(N)` on the handle of `with open(path, 'rb')`, N evaluating to 8 (a literal, or the length
+    # of the constant it is compared with); it may be compared in place, through a local, or through a boolean local
+    with_open = [s for s in f_ld.node.body if isinstance(s, ast.With) and any(isinstance(i.context_expr, ast.Call) and u(i.context_expr.func) == 'open' for i in s.items)]
+    handle = u(with_open[0].items[0].optional_vars) if with_open and with_open[0].items[0].optional_vars is not None else None
+    hreads = [c for w in with_open for c in calls_in(w) if callee_attr(c) == 'read' and isinstance(c.func, ast.Attribute) and u(c.func.value) == handle]
+
+    def const_of(node):
+        if isinstance(node, ast.Call) and u(node.func) == 'len' and len(node.args) == 1 and not node.keywords:
+            v = const_of(node.args[0])
+            return len(v) if isinstance(v, (bytes, str, tuple, list)) else None
+        try:
+            return m.const_value(f_ld.module, node)
+        except Undecided:
+            return None
+    okh = len(hreads) == 1 and len(hreads[0].args) == 1 and not hreads[0].keywords and const_of(hreads[0].args[0]) == 8
+    htext = u(hreads[0]) if hreads else None
+    MAGIC = b'\x89HDF\r\n\x1a\n'
+
+    def hkey(node):
+        if htext is not None and u(node) == htext:
+            return '<header>'
+        c = const_of(node) if not isinstance(node, ast.Call) else None
+        return repr(c) if isinstance(c, (bytes, str, int)) and not isinstance(c, bool) else u(node)
+    ownl = test_owner(f_ld.node)
+    magic = repr(MAGIC)
+    at = deep_atoms(f_ld.node, gml, ost, ownl, hkey)
+    okm = any(a[0] == 'eq' and set(a[1:]) == {'<header>', magic} for a in at)
+    rep.add('H6', f_ld.site(ost), 'the file is opened with h5py only after its first 8 bytes equal the HDF5 magic number', okh and okm, expected=f'<header> == {magic} on the path to h5.File, <header> = {handle}.read(8)',
+            found=dict(header=htext, path=sorted(at)), stmt='magic guard')
     raises = [s for s in stmts_in(f_ld.node.body) if isinstance(s, ast.Raise)]
-    mr = [r for r in raises if any(a[0] == 'ne' and hname in a for a in path_atoms(gml[r]))]
+    mr = [r for r in raises if any(a[0] == 'ne' and '<header>' in a[1:] for a in deep_atoms(f_ld.node, gml, r, ownl, hkey))]
     rep.add('H6', f_ld.site(mr[0] if mr else ost), 'a foreign (non-HDF5) file raises the dedicated SignaturesFileError', len(mr) == 1 and u(mr[0].exc) == excname and excname is not None, expected=f'raise {excname} (SignaturesFileError)',
             found=[u(r) for r in mr], stmt='magic refusal')
-    with_open = [s for s in f_ld.node.body if isinstance(s, ast.With) and any(isinstance(i.context_expr, ast.Call) and u(i.context_expr.func) == 'open' for i in s.items)]
-    okwo = len(with_open) == 1 and [u(a) for a in with_open[0].items[0].context_expr.args] in ([pth, "'rb'"],) and with_open[0].lineno < ost.lineno
+    okwo = len(with_open) == 1 and [u(a) for a in with_open[0].items[0].context_expr.args] in ([pth, "'rb'"],) and f_ld.node.body.index(with_open[0]) < f_ld.node.body.index(ost)
     rep.add('H6', f_ld.site(with_open[0] if with_open else ost), 'the magic bytes are read from the same path in binary mode and the handle is closed again', okwo, expected=f"with open({pth}, 'rb')", found=[u(w)[:50] for w in with_open],
             stmt='magic read')
     ctor = [c for c in calls_in(f_ld.node) if m.resolve_call(f_ld, c) == f'{H}.HDF5Signatures']
@@ -360,6 +1002,49 @@ def check(ctx):
     rep.add('H8', fdz.site(), 'dump_signatures forwards path and collection to the HDF5 writer', len(dcalls) == 1 and [u(a) for a in dcalls[0].args] == fdz.params()[:2], expected='dump_signatures_hdf5(path, signatures, **kw)',
             found=[u(c) for c in dcalls], stmt='dump dispatch')
 
+    # ------------------------------------------------------------------ H9 / X3-X5
+    # "for every index, slice or index list, the same signatures with the same integer type": the object handed back by the loader
+    # is an HDF5Signatures over the datasets checked above (H4 'dataset binding'); what indexing it yields is decided by the methods
+    # it INHERITS.  Establish which ones those are, then re-evaluate the C20 selection rules on exactly them.
+    check_inherited_indexing(ctx, cls)
+
+
+INDEX_PROTOCOL = ('__getitem__', '_check_index', '_getitem_int', '_getitem_slice', '_getitem_int_array', '_getitem_bool_array', '__len__', 'sizeof', 'sizes', 'dtype', '__iter__')
+
+
+def _defines(ci, name):
+    return name in ci.methods or name in ci.class_attrs
+
+
+def check_inherited_indexing(ctx, cls):
+    rep, m = ctx.rep, ctx.model
+    from . import c20
+    C = f'{c20.BASE}.ConcatenatedSignatureArray'
+    conc = m.cls(C)
+    chain_c = m.mro(C)
+    chain_h = m.mro(cls.qualname)
+    rep.add('H9', cls.site(), 'the reader class is a ConcatenatedSignatureArray (its values/bounds datasets are indexed by that implementation)', C in chain_h[1:], expected=C, found=chain_h[1:4], stmt='reader base class')
+    rep.require(C in chain_h[1:], f'{cls.qualname} is not derived from ConcatenatedSignatureArray: the C20 slice / index-list rules do not describe what a loaded file yields')
+    # Attribute lookup on the reader finds the same definition as on ConcatenatedSignatureArray when neither the reader itself nor any
+    # ancestor OUTSIDE ConcatenatedSignatureArray's own ancestry defines the name (inside that ancestry C3 keeps the relative order).
+    outside = [q for q in chain_h if q not in chain_c and q in m.classes]
+    unknown = [q for q in chain_h[1:] if q not in chain_c and q not in m.classes and not q.startswith(('typing.', 'collections.abc.', 'builtins.'))]
+    rep.require(not unknown, f'{cls.qualname} has base classes outside the analysed package besides its ConcatenatedSignatureArray ancestry: {unknown}')
+    n = 0
+    for name in INDEX_PROTOCOL:
+        target = m.find_method(C, name)
+        definers = [q for q in outside if _defines(m.classes[q], name)]
+        if target is None and not any(_defines(m.classes[q], name) for q in chain_c if q in m.classes) and not definers:
+            continue        # not defined anywhere in the package (inherited from collections.abc.Sequence, e.g. __iter__ -> __getitem__ + __len__)
+        n += 1
+        if definers:
+            # an override would have to be the implementation analysed below; the C20 rules are written against ConcatenatedSignatureArray
+            raise Undecided(f'{name} is overridden for the loaded collection by {definers}: the sub-collection rules (C20 X3-X5) analyse the ConcatenatedSignatureArray implementation, not this one')
+        rep.add('H9', cls.site(), f'{name}: indexing a loaded file runs the analysed implementation', True, expected=target.qualname if target else f'{C} ancestry', found=target.qualname if target else 'class attribute', stmt=f'inherits {name}')
+    rep.floor('H9', 'indexing protocol members resolved', n, 8)
+    c20.check_arith(ctx)
+    c20.check_subcollections(ctx)
+
 
 from ..variants import V  # noqa: E402
 
@@ -385,4 +1070,82 @@ VARIANTS = [
     V('id count check dropped', 'B', _H, "\t\t\tif ids.shape != (len(signatures),):\n\t\t\t\traise ValueError('Length of ids must match length of data')\n", "", 'H8'),
     V('E: fill via enumerate-free alias', 'E', _H, "\t\t\tn = len(signatures)\n", "\t\t\tn = len(signatures)  # number of signatures\n"),
     V('E: upper bound commuted', 'E', _H, "values[bounds[i]:bounds[i + 1]] = signatures[i]", "values[bounds[i]:bounds[1 + i]] = signatures[i]"),
+]
+
+# ---- generalised idioms: each new accepted form (E) with its broken twin (B)
+_WM_OLD = ("\tgroup.attrs['id'] = none_to_empty(meta.id, STR_DTYPE)\n\tgroup.attrs['name'] = none_to_empty(meta.name, STR_DTYPE)\n\tgroup.attrs['id_attr'] = none_to_empty(meta.id_attr, STR_DTYPE)\n"
+           "\tgroup.attrs['version'] = none_to_empty(meta.version, STR_DTYPE)\n\tgroup.attrs['description'] = none_to_empty(meta.description, STR_DTYPE)\n")
+_TUP = "('id', 'name', 'id_attr', 'version', 'description')"
+_RM_OLD = ("\treturn SignaturesMeta(\n\t\tid=empty_to_none(group.attrs.get('id')),\n\t\tname=empty_to_none(group.attrs.get('name')),\n\t\tid_attr=empty_to_none(group.attrs.get('id_attr')),\n"
+           "\t\tversion=empty_to_none(group.attrs.get('version')),\n\t\tdescription=empty_to_none(group.attrs.get('description')),\n\t\textra=extra,\n\t)\n")
+_XW_OLD = "\tif meta.extra is not None:\n\t\tgroup.attrs['extra'] = json.dumps(meta.extra)\n\telse:\n\t\tgroup.attrs['extra'] = h5.Empty(STR_DTYPE)\n"
+_IDR_OLD = "\t\tif ids_data.dtype.kind == 'O':\n\t\t\t# String data set reads out bytes as default\n\t\t\tself.ids = ids_data.asstr()[:]\n\t\telse:\n\t\t\tself.ids = ids_data[:]\n"
+_HDR_OLD = "\twith open(path, 'rb') as f:\n\t\theader = f.read(8)\n\tif header != b'\\x89HDF\\r\\n\\x1a\\n':\n\t\traise exc\n"
+_KIND_OLD = ("\t\tif ids.dtype.kind == 'U':\n\t\t\t# h5py doesn't support writing Numpy U data type\n\t\t\tids = ids.astype(object)\n\t\t\tids_dtype = h5.string_dtype()\n\t\telif ids.dtype.kind in 'OS':\n"
+             "\t\t\tids_dtype = h5.string_dtype()\n\t\telif ids.dtype.kind in 'ui':\n\t\t\tids_dtype = ids.dtype\n\t\telse:\n\t\t\traise ValueError('ids array must contain integers or strings.')\n")
+_BND_OLD = "\t\t\tbounds = group.create_dataset('bounds', shape=n + 1, dtype=BOUNDS_DTYPE)\n\t\t\tbounds[0] = 0\n\t\t\tbounds[1:] = np.cumsum(sizes, dtype=BOUNDS_DTYPE)\n"
+_FILL_OLD = "\t\t\tfor i in range(n):\n\t\t\t\tvalues[bounds[i]:bounds[i + 1]] = signatures[i]\n"
+
+
+def _kind(inner_test, group='UOS'):
+    return ("\t\tids_kind = ids.dtype.kind\n\t\tif ids_kind in 'ui':\n\t\t\tids_dtype = ids.dtype\n\t\telif ids_kind in '%s':\n\t\t\tif ids_kind == '%s':\n\t\t\t\tids = ids.astype(object)\n\t\t\tids_dtype = h5.string_dtype()\n"
+            "\t\telse:\n\t\t\traise ValueError('ids array must contain integers or strings.')\n" % (group, inner_test))
+
+
+VARIANTS += [
+    # metadata written / read by loops over a constant tuple of names
+    V('E: string fields written by a loop over a name tuple', 'E', _H, _WM_OLD, "\tfor name in " + _TUP + ":\n\t\tgroup.attrs[name] = none_to_empty(getattr(meta, name), STR_DTYPE)\n"),
+    V('write loop takes every field from meta.name', 'B', _H, _WM_OLD, "\tfor name in " + _TUP + ":\n\t\tgroup.attrs[name] = none_to_empty(getattr(meta, 'name'), STR_DTYPE)\n", 'H3'),
+    V('write loop over a tuple that lost a field', 'B', _H, _WM_OLD, "\tfor name in ('id', 'name', 'id_attr', 'description'):\n\t\tgroup.attrs[name] = none_to_empty(getattr(meta, name), STR_DTYPE)\n", 'H'),
+    V('E: string fields read by a dict comprehension and passed as **fields', 'E', _H, _RM_OLD,
+      "\tattrs = group.attrs\n\tfields = {name: empty_to_none(attrs.get(name)) for name in " + _TUP + "}\n\treturn SignaturesMeta(extra=extra, **fields)\n"),
+    V('read comprehension forgets empty_to_none', 'B', _H, _RM_OLD,
+      "\tattrs = group.attrs\n\tfields = {name: attrs.get(name) for name in " + _TUP + "}\n\treturn SignaturesMeta(extra=extra, **fields)\n", 'H3'),
+    V('read comprehension: extra no longer passed', 'B', _H, _RM_OLD,
+      "\tattrs = group.attrs\n\tfields = {name: empty_to_none(attrs.get(name)) for name in " + _TUP + "}\n\treturn SignaturesMeta(**fields)\n", 'H2'),
+    # extra through a conditional JSON text and none_to_empty
+    V('E: extra as none_to_empty of a conditional JSON text', 'E', _H, _XW_OLD, "\textra_str = None if meta.extra is None else json.dumps(meta.extra)\n\tgroup.attrs['extra'] = none_to_empty(extra_str, STR_DTYPE)\n"),
+    V('conditional JSON text tests truthiness (empty dict stored as Empty)', 'B', _H, _XW_OLD, "\textra_str = json.dumps(meta.extra) if meta.extra else None\n\tgroup.attrs['extra'] = none_to_empty(extra_str, STR_DTYPE)\n", 'H3'),
+    V('conditional JSON text with the arms swapped', 'B', _H, _XW_OLD, "\textra_str = json.dumps(meta.extra) if meta.extra is None else None\n\tgroup.attrs['extra'] = none_to_empty(extra_str, STR_DTYPE)\n", 'H3'),
+    # ids read through a conditional view
+    V('E: ids read through a conditional view and one [:]', 'E', _H, _IDR_OLD, "\t\tis_str = ids_data.dtype.kind == 'O'\n\t\tids_view = ids_data.asstr() if is_str else ids_data\n\t\tself.ids = ids_view[:]\n"),
+    V('conditional view with the arms swapped', 'B', _H, _IDR_OLD, "\t\tis_str = ids_data.dtype.kind == 'O'\n\t\tids_view = ids_data if is_str else ids_data.asstr()\n\t\tself.ids = ids_view[:]\n", 'H5'),
+    V('conditional view tests the kind of the values dataset', 'B', _H, _IDR_OLD, "\t\tis_str = self.values.dtype.kind == 'O'\n\t\tids_view = ids_data.asstr() if is_str else ids_data\n\t\tself.ids = ids_view[:]\n", 'H5'),
+    # header compared through a boolean local and a named constant
+    V('E: magic test through a boolean local and len(constant)', 'E', _H, _HDR_OLD,
+      "\twith open(path, 'rb') as f:\n\t\tis_hdf5 = f.read(len(b'\\x89HDF\\r\\n\\x1a\\n')) == b'\\x89HDF\\r\\n\\x1a\\n'\n\tif not is_hdf5:\n\t\traise exc\n"),
+    V('boolean magic test inverted', 'B', _H, _HDR_OLD,
+      "\twith open(path, 'rb') as f:\n\t\tis_hdf5 = f.read(len(b'\\x89HDF\\r\\n\\x1a\\n')) == b'\\x89HDF\\r\\n\\x1a\\n'\n\tif is_hdf5:\n\t\traise exc\n", 'H6'),
+    V('boolean magic test reads only 4 bytes', 'B', _H, _HDR_OLD,
+      "\twith open(path, 'rb') as f:\n\t\tis_hdf5 = f.read(len(b'\\x89HDF')) == b'\\x89HDF\\r\\n\\x1a\\n'\n\tif not is_hdf5:\n\t\traise exc\n", 'H6'),
+    V('boolean magic test computed but never consulted', 'B', _H, _HDR_OLD,
+      "\twith open(path, 'rb') as f:\n\t\tis_hdf5 = f.read(8) == b'\\x89HDF\\r\\n\\x1a\\n'\n", 'H6'),
+    # id dispatch regrouped
+    V('E: id dispatch regrouped (integers first, string kinds share a branch)', 'E', _H, _KIND_OLD, _kind('U')),
+    V('regrouped dispatch converts bytes ids instead of unicode ids', 'B', _H, _KIND_OLD, _kind('S'), 'H5'),
+    V('regrouped dispatch lets bool ids through as strings', 'B', _H, _KIND_OLD, _kind('U', 'UOSb'), 'H5'),
+    # bounds computed in memory, written in one go
+    V('E: bounds built in a zero-initialised array and written with data=', 'E', _H, _BND_OLD,
+      "\t\t\tbounds = np.zeros(n + 1, dtype=BOUNDS_DTYPE)\n\t\t\tbounds[1:] = np.cumsum(sizes, dtype=BOUNDS_DTYPE)\n\t\t\tgroup.create_dataset('bounds', data=bounds, dtype=BOUNDS_DTYPE)\n"),
+    V('in-memory bounds from np.empty without the leading zero', 'B', _H, _BND_OLD,
+      "\t\t\tbounds = np.empty(n + 1, dtype=BOUNDS_DTYPE)\n\t\t\tbounds[1:] = np.cumsum(sizes, dtype=BOUNDS_DTYPE)\n\t\t\tgroup.create_dataset('bounds', data=bounds, dtype=BOUNDS_DTYPE)\n", 'H4'),
+    V('in-memory bounds filled after the array was written', 'B', _H, _BND_OLD,
+      "\t\t\tbounds = np.zeros(n + 1, dtype=BOUNDS_DTYPE)\n\t\t\tgroup.create_dataset('bounds', data=bounds, dtype=BOUNDS_DTYPE)\n\t\t\tbounds[1:] = np.cumsum(sizes, dtype=BOUNDS_DTYPE)\n", 'H4'),
+    V('in-memory bounds one entry short', 'B', _H, _BND_OLD,
+      "\t\t\tbounds = np.zeros(n, dtype=BOUNDS_DTYPE)\n\t\t\tbounds[1:] = np.cumsum(sizes, dtype=BOUNDS_DTYPE)\n\t\t\tgroup.create_dataset('bounds', data=bounds, dtype=BOUNDS_DTYPE)\n", 'H4'),
+    V('in-memory bounds accumulated in float64', 'B', _H, _BND_OLD,
+      "\t\t\tbounds = np.zeros(n + 1)\n\t\t\tbounds[1:] = np.cumsum(sizes, dtype=BOUNDS_DTYPE)\n\t\t\tgroup.create_dataset('bounds', data=bounds, dtype=BOUNDS_DTYPE)\n", 'H4'),
+    # fill loop over enumerate / zip of bound slices
+    V('E: fill loop over enumerate(zip(bounds[:-1], bounds[1:]))', 'E', _H, _FILL_OLD, "\t\t\tfor i, (start, stop) in enumerate(zip(bounds[:-1], bounds[1:])):\n\t\t\t\tvalues[start:stop] = signatures[i]\n"),
+    V('E: fill loop over enumerate(signatures)', 'E', _H, _FILL_OLD, "\t\t\tfor i, sig in enumerate(signatures):\n\t\t\t\tvalues[bounds[i]:bounds[i + 1]] = sig\n"),
+    V('zip fill pairs every bound with itself', 'B', _H, _FILL_OLD, "\t\t\tfor i, (start, stop) in enumerate(zip(bounds[:-1], bounds[:-1])):\n\t\t\t\tvalues[start:stop] = signatures[i]\n", 'H4'),
+    V('zip fill starts at the second bound (last signature never written)', 'B', _H, _FILL_OLD, "\t\t\tfor i, (start, stop) in enumerate(zip(bounds[1:-1], bounds[2:])):\n\t\t\t\tvalues[start:stop] = signatures[i]\n", 'H4'),
+    V('zip fill with start and stop unpacked in the wrong order', 'B', _H, _FILL_OLD, "\t\t\tfor i, (stop, start) in enumerate(zip(bounds[:-1], bounds[1:])):\n\t\t\t\tvalues[start:stop] = signatures[i]\n", 'H4'),
+    # create(): length taken once
+    V('E: create takes len(signatures) once', 'E', _H, "\t\t\tif ids.shape != (len(signatures),):\n", "\t\t\tn_sigs = len(signatures)\n\t\t\tif ids.shape != (n_sigs,):\n"),
+    V('create compares the id shape with the wrong length local', 'B', _H, "\t\t\tif ids.shape != (len(signatures),):\n", "\t\t\tn_sigs = len(ids)\n\t\t\tif ids.shape != (n_sigs,):\n", 'H8'),
+    # the loaded collection inherits its indexing: the sub-collection rules are re-evaluated on what it inherits
+    V('inherited slice fast path taken for reversed unit-step ranges (loaded[5:2] breaks)', 'B', _B, "\t\tif step != 1 or stop <= start:\n", "\t\tif step != 1:\n", 'X4'),
+    V('inherited index-list selection fills slots in reverse order', 'B', _B, "\t\t\tnp.copyto(out[i], self._getitem_int(idx), casting='unsafe')\n", "\t\t\tnp.copyto(out[-1 - i], self._getitem_int(idx), casting='unsafe')\n", 'X5'),
+    V('inherited index-list selection drops the stored integer type', 'B', _B, "[self.sizeof(i) for i in indices], self.kmerspec, dtype=self.values.dtype)", "[self.sizeof(i) for i in indices], self.kmerspec)", 'X5'),
 ]
